@@ -24,14 +24,49 @@ def tuple_space(n, times):
     return [(i, s, j, t) for i in range(n) for s in times for j in range(n) for t in times]
 
 
+def apply_rebuild(p, inst):
+    """RE-ENUMERATION: the object has already enumerated its variables; change the problem through the
+    public API and ask for a rebuild.  Returns the grid the object holds afterwards (as given to it)."""
+    import numpy as np
+    kind, arg = inst["rebuild"]
+    grid = list(inst["grid"])
+    if inst.get("lookup_first"):                       # first enumeration through a lookup ...
+        p.get_var_index(0, grid[0] if grid else 0, 0, grid[0] if grid else 0)
+    else:                                              # ... or through the size query
+        p.get_num_variables()
+    stale = len(p.var_mapping)
+    if kind == "make_feasible":
+        try:
+            p.make_feasible(arg)                       # adds arcs and resets the flags itself
+        except Exception:  # noqa  (heuristic failures are C09's subject; the state is compared as it is)
+            pass
+        grid = [lit.exact_int(t) for t in np.asarray(p.time_points).ravel()]
+    else:
+        if kind == "add_arc":
+            p.add_arc(*arg)
+        else:
+            p.add_time_points(list(arg))
+            grid = list(arg)
+        p.variables_enumerated = False
+        p.constraints_built = False
+        p.objective_built = False
+    return grid, stale
+
+
 def observe(inst):
     """Everything C18 talks about, read off the real object.  inst["lookup_first"]: the tuple lookups are
-    the first calls on the fresh object (before any size query), so the call order is varied too."""
+    the first calls on the fresh object (before any size query), so the call order is varied too.
+    inst["rebuild"]: see apply_rebuild; everything is then observed on (and compared with the model of)
+    the CHANGED instance."""
     p = ac.build(inst)
+    grid = list(inst["grid"])
+    stale = None
+    if inst.get("rebuild"):
+        grid, stale = apply_rebuild(p, inst)
     snap = ac.snapshot(p)
-    times = lookup_times(inst)
+    times = lookup_times({"grid": grid})
     space = tuple_space(len(snap[1]), times)
-    if inst.get("lookup_first"):
+    if inst.get("lookup_first") and not inst.get("rebuild"):
         idx = [p.get_var_index(*v) for v in space]
         n = p.get_num_variables()
     else:
@@ -40,7 +75,8 @@ def observe(inst):
     vm = [ac.tup_py(v) for v in p.var_mapping]
     tups = [p.get_var_tuple_index(k) for k in range(n + 3)]
     tups = [None if v is None else ac.tup_py(v) for v in tups]
-    return {"snap": snap, "n": int(n), "vars": vm, "times": times, "space": space, "idx": idx, "tups": tups}
+    return {"snap": snap, "n": int(n), "vars": vm, "times": times, "space": space, "idx": idx, "tups": tups,
+            "grid": grid, "stale": stale}
 
 
 def oracle(inst, obs=None):
@@ -49,7 +85,7 @@ def oracle(inst, obs=None):
         obs = obs or observe(inst)
     except Exception as e:  # noqa
         return f"exception {exc_cls(e)}: {e}"
-    snap, grid, n = obs["snap"], list(inst["grid"]), obs["n"]
+    snap, grid, n = obs["snap"], list(obs["grid"]), obs["n"]
     if len(set(grid)) != len(grid):
         return None                      # repeated grid values are outside the quantifier
     adm = [v for v in obs["space"] if ac.admissible(snap, grid, v)]
@@ -85,7 +121,7 @@ def oracle(inst, obs=None):
 
 
 def case_lit(inst, obs):
-    return lit.tup(ac.graph_lit(obs["snap"]), ac.zlist(inst["grid"]), ac.zlist(obs["times"]),
+    return lit.tup(ac.graph_lit(obs["snap"]), ac.zlist(obs["grid"]), ac.zlist(obs["times"]),
                    lit.lst([ac.var_lit(v) for v in obs["vars"]]), lit.nat(obs["n"]),
                    lit.lst([lit.opt(k, lit.nat) for k in obs["idx"]]),
                    lit.lst([lit.opt(v, ac.var_lit) for v in obs["tups"]]))
@@ -120,6 +156,23 @@ def run_part(ctx):
         inst = ac.gen_instance(rng)
         inst["lookup_first"] = (k % 2 == 0)
         insts.append(inst)
+    # RE-ENUMERATION stream: enumerate, change the problem through the public API, rebuild
+    n_rebuild = 75 if ctx.quick else 1200
+    for k in range(n_rebuild):
+        inst = ac.gen_feasible(rng) if k % 3 == 0 else ac.gen_instance(rng)
+        inst["lookup_first"] = (k % 2 == 1)
+        names = [nd[0] for nd in inst["nodes"]]
+        kind = ("make_feasible", "add_arc", "grid")[k % 3]
+        if kind == "make_feasible":
+            if k % 2 == 0 and inst["arcs"]:          # leave customers unreachable: the heuristic adds arcs
+                inst["arcs"] = [a for a in inst["arcs"] if not (a[0] == "D" and rng.random() < 0.6)]
+            inst["rebuild"] = ("make_feasible", 50)
+        elif kind == "add_arc":
+            o, d = rng.choice(names), rng.choice(names)
+            inst["rebuild"] = ("add_arc", (o, d, rng.randint(0, 2), rng.randint(0, 9)))
+        else:
+            inst["rebuild"] = ("grid", ac.gen_grid(rng, inst["nodes"]))
+        insts.append(inst)
     # a few grids with repeated values: outside the property's quantifier (a grid is a set), modelled
     # literally and compared with the model only
     for _ in range(6 if ctx.quick else 60):
@@ -132,7 +185,8 @@ def run_part(ctx):
     cases, terms = [], []
     dist = {"instances": 0, "unsorted_grid": 0, "repeated_grid_value": 0, "window_end_on_grid": 0,
             "exact_travel_fit": 0, "window_without_grid_point": 0, "zero_travel_arc": 0, "depot_self_arc": 0,
-            "finite_depot_window": 0, "no_variables": 0, "lookup_before_size_query": 0, "lookups": 0, "admissible_lookups": 0,
+            "finite_depot_window": 0, "no_variables": 0, "lookup_before_size_query": 0,
+            "rebuild": {}, "rebuild_changed_var_count": 0, "lookups": 0, "admissible_lookups": 0,
             "by_customers": {}}
     reported = 0
     seen = set()
@@ -144,7 +198,8 @@ def run_part(ctx):
             obs, msg = None, f"exception {exc_cls(e)}: {e}"
         if msg and reported < 3:
             reported += 1
-            small = ac.shrink_instance(inst, lambda c: oracle(c) is not None)
+            kind0 = msg.split(" ")[0]
+            small = ac.shrink_instance(inst, lambda c: (oracle(c) or "").split(" ")[0] == kind0)
             msg2 = oracle(small) or msg
             sig = "oracle/arc-index/" + ("exception" if msg2.startswith("exception") else msg2.split(" ")[0])
             ctx.violation(sig, "arc-based index maps: " + msg2,
@@ -154,9 +209,13 @@ def run_part(ctx):
         cases.append((inst, obs))
         terms.append(case_lit(inst, obs))
         # ---- measured input distribution
-        grid = list(inst["grid"])
+        grid = list(obs["grid"])
         snap = obs["snap"]
         dist["instances"] += 1
+        if inst.get("rebuild"):
+            kind = inst["rebuild"][0]
+            dist["rebuild"][kind] = dist["rebuild"].get(kind, 0) + 1
+            dist["rebuild_changed_var_count"] += obs["stale"] != obs["n"]
         dist["unsorted_grid"] += grid != sorted(grid)
         dist["repeated_grid_value"] += len(set(grid)) != len(grid)
         ends = [x for nd in snap[1] for x in (nd[2], nd[3])]
@@ -185,7 +244,9 @@ def run_part(ctx):
                        "sparse / complete / with window ends on grid points / missing a customer's window; plus hand-made "
                        "edge cases); every tuple of nodes x (grid + 2 off-grid times) x nodes x (same) is looked up and every "
                        "index 0..n+2; non-trivial = distinct instance with at least one variable and at least one "
-                       "inadmissible tuple in the lookup space.").strip()
+                       "inadmissible tuple in the lookup space.  RE-ENUMERATION: on a further stream the object enumerates first, "
+                       "is then changed through the public API (make_feasible(50) / add_arc + flags reset / add_time_points + flags "
+                       "reset) and the rebuilt maps are compared with the model of the changed instance.").strip()
     for inst, obs in cases[:2] + cases[7:9]:
         ctx.sample({"arc_instance": ac.describe(inst), "num_variables": obs["n"], "var_mapping_head": obs["vars"][:4]})
 
@@ -209,7 +270,7 @@ def run_part(ctx):
         msg = oracle(inst, obs)
         if msg:
             continue                      # already reported with the instance as failing input
-        I = ac.inst_lit(obs["snap"], inst["grid"])
+        I = ac.inst_lit(obs["snap"], obs["grid"])
         model = ctx.coq_eval(ac.HEADER, f"(vars {I}, num_variables {I})")
         ctx.violation(f"correspondence/arc-index/tags{tags}",
                       f"model Arc.v and implementation disagree (fields {tags}: 1 var_mapping, 2 num_variables, "
@@ -226,4 +287,7 @@ def replay_part(ctx, data):
     inst = {"nodes": [tuple(n) for n in inst["nodes"]], "depot": inst["depot"],
             "arcs": [tuple(a) for a in inst["arcs"]], "grid": inst["grid"],
             "lookup_first": inst.get("lookup_first", False)}
+    if r["instance"].get("rebuild"):
+        kind, arg = r["instance"]["rebuild"]
+        inst["rebuild"] = (kind, tuple(arg) if kind == "add_arc" else arg)
     print(oracle(inst))
